@@ -661,7 +661,54 @@ class Interp:
         self.unsupported(e, "constant")
 
     def e_JoinedStr(self, e, st):
-        return self.val(st, SeqV("str", st.new_sym("fstr"), [("fstring", None, None)]))
+        # an f-string all of whose parts are constants (after evaluation) is a constant; anything else is a string of
+        # unknown content and length
+        def go(i, st, acc):
+            if i == len(e.values):
+                return self.val(st, self.from_python("".join(acc)))
+            v = e.values[i]
+            if isinstance(v, ast.Constant):
+                return go(i + 1, st, acc + [str(v.value)])
+            if isinstance(v, ast.FormattedValue) and v.conversion == -1:
+                spec = ""
+                if v.format_spec is not None:
+                    if not all(isinstance(x, ast.Constant) for x in v.format_spec.values):
+                        return None
+                    spec = "".join(str(x.value) for x in v.format_spec.values)
+
+                def k(o):
+                    x = o.value
+                    c = None
+                    if isinstance(x, IntV) and x.e.is_const():
+                        c = int(x.e.const)
+                    elif isinstance(x, SeqV) and x.kind == "str" and x.const is not None:
+                        c = x.const
+                    if c is None:
+                        return None
+                    try:
+                        return go(i + 1, o.st, acc + [format(c, spec)])
+                    except ValueError:
+                        return None
+                outs = []
+                for o in self.eval(v.value, st):
+                    if o.kind != "val":
+                        outs.append(o)
+                        continue
+                    r = k(o)
+                    if r is None:
+                        return None
+                    outs.extend(r)
+                return outs
+            return None
+        try:
+            r = go(0, st.clone(), [])
+        except Unsupported:
+            r = None
+        if r is not None:
+            return r
+        n = st.new_sym("fstr", "length of an f-string")
+        st.add(ge(n, 0))
+        return self.val(st, SeqV("str", n, [("fstring", None, None)]))
 
     def e_Name(self, e, st):
         env = st.env
@@ -706,6 +753,9 @@ class Interp:
             return ExtV(ent[1])
         if k == "var":
             mod, name, expr = ent[1], ent[2], ent[3]
+            if isinstance(expr, (ast.Dict, ast.Call)):
+                from .common import module_dict_expr
+                expr = module_dict_expr(self.ix, mod, name)  # + entries registered at import time
             return self.eval_in_module(expr, mod, node)
         if k == "classvar":
             return self.eval_in_module(ent[3], ent[4], node)
@@ -1823,6 +1873,18 @@ class Interp:
                     pieces = ([pad] + list(recv.pieces)) if attr == "rjust" else (list(recv.pieces) + [pad])
                     res.extend(self.val(s2, SeqV("str", n, pieces)))
                 return res
+            if attr == "join" and len(args) == 1 and isinstance(args[0], (TupleV, ListV)):
+                items = args[0].items if isinstance(args[0], TupleV) else st.items(args[0])
+                if all(isinstance(x, SeqV) and x.kind == recv.kind for x in items) and \
+                        (recv.const is not None or st.entails(eq(recv.length, 0))):
+                    sep_empty = (recv.const is not None and len(recv.const) == 0) or st.entails(eq(recv.length, 0))
+                    if sep_empty or len(items) <= 1:
+                        length, pieces, const = LinExpr.c(0), [], recv.const[:0] if recv.const is not None else None
+                        for x in items:
+                            length = length + x.length
+                            pieces = pieces + list(x.pieces)
+                            const = const + x.const if (const is not None and x.const is not None) else None
+                        return self.val(st, SeqV(recv.kind, length, pieces, const=const))
             if attr in ("startswith", "endswith", "split", "join", "strip", "replace"):
                 return self.val(st, OpaqueV("str." + attr))
         if isinstance(recv, ListV):
